@@ -136,6 +136,7 @@ def register(reg):
     register_order(reg)
     register_project_sql(reg)
     register_extend_sql(reg)
+    register_extend_terms_sql(reg)
     register_select_rows_sql(reg)
     register_rename_sql(reg)
     register_map_sql(reg)
@@ -408,7 +409,91 @@ def register_extend_sql(reg):
                      entry_assume=lambda c: [c.field(c.extend_node, f).n >= 0 for f in ("partition_by", "order_by", "reverse")]))
 
 
-KEYS_C27_SQL = ["SQLModel.extend_to_near_sql:window-clause"]
+KEYS_C27_SQL = ["SQLModel.extend_to_near_sql:window-clause", "SQLModel.extend_to_near_sql:term-assembly"]
+
+
+def register_extend_terms_sql(reg):
+    """second REGION contract on the real extend_to_near_sql: the statements from `terms: ... = OrderedDict()` up to (not including) `annotation = ...`.
+    The locals computed before the region (`using`, `subops`, `window_term`, `window_vars`) enter as arbitrary values of their types.
+    What is proved about every computed column ci: its SQL term is expr_to_sql(op) followed by the window clause, and its DECLARED DEPENDENCIES are the
+    columns the expression reads together with every partition / order column -- the dependencies are what keeps the SQL-level extend merge from folding
+    a windowed extend into a preceding extend that (re)defines one of its window columns."""
+    import ast as _ast
+    import z3
+    from pyvc.api import Contract, T, VList, VNone, VOpt, VPy, VScalar, VSet, VStr, VTuple, VDict, fresh_name
+    from contracts.vr_common import COLS, NODE, EXPR
+    SM = T.obj("SQLModel")
+
+    def e2s(S):
+        return S.func("expr_to_sql", S.sort("Expr"), S.Atom)
+
+    def colsf(S):
+        return S.func("cols_of_expression", S.sort("Expr"), z3.ArraySort(S.Atom, z3.BoolSort()))
+
+    if "SQLModel.expr_to_sql" not in reg.contracts:
+        reg.add(Contract(key="SQLModel.expr_to_sql", cls="SQLModel", params={"self": SM, "expression": T.opaque("Expr")}, assumed=True,
+                         apply=lambda eng, st, argmap, node: [(st, VScalar(e2s(eng.S)(argmap["expression"].z), T.atom))]))
+
+    def gcn_apply(eng, st, argmap, node):
+        """oi.get_column_names(acc): adds the columns the expression reads to the set `acc` (in place)"""
+        S = eng.S
+        recv = argmap["self"]
+        acc_node = node.args[0]
+        cur = eng.set_of(argmap["columns_seen"], st, node)
+        nv = VSet(z3.SetUnion(cur.arr, colsf(S)(recv.z)), T.set(T.atom))
+        eng.registry.note("assumed: expr.get_column_names(acc) adds exactly cols(expr) to acc (expr_rep, exercised in the C10 bounded run)")
+        return [(s2, VNone()) for (s2, o) in eng.store_back(acc_node, nv, st, node)]
+
+    reg.opaque_methods[("Expr", "get_column_names")] = Contract(key="Expr.get_column_names", params={"columns_seen": T.set(T.atom)}, assumed=True, apply=gcn_apply)
+
+    def region(fn):
+        start = end = None
+        for i, stmt in enumerate(fn.body):
+            if start is None and isinstance(stmt, _ast.AnnAssign) and _ast.unparse(stmt.target) == "terms":
+                start = i
+            if start is not None and isinstance(stmt, _ast.Assign) and _ast.unparse(stmt.targets[0]) == "annotation":
+                end = i
+                break
+        if start is None or end is None:
+            return []
+        return fn.body[start:end]
+
+    def spec_for(c, st, k, terms, deps):
+        S = c.S
+        cat = S.func("str_concat", S.Atom, S.Atom, S.Atom)
+        subops = c.subops
+        wt = c.eng.as_atom(c.window_term, st, None)
+        wv = c.eng.set_of(c.window_vars, st, None).arr
+        want_term = z3.If(wt == S.str_const(""), e2s(S)(subops.val[k]), cat(e2s(S)(subops.val[k]), wt))
+        return z3.And(terms.dom[k], terms.val[k] == want_term, deps.dom[k], deps.val[k] == z3.SetUnion(colsf(S)(subops.val[k]), wv))
+
+    def loop0(c):
+        return [("(no claim about the pass-through columns)", z3.BoolVal(True))]
+
+    def loop1(c):
+        S = c.S
+        terms, deps = c.var("terms"), c.var("declared_term_dependencies")
+        keys = c.seq
+        k = z3.Const("ta_k", S.Atom)
+        return [("visited-computed-columns-have-their-term-and-dependencies", z3.ForAll([k], z3.Implies(z3.And(keys.mem[k], keys.idx_fn(k) < c.i), spec_for(c, c.st, k, terms, deps))))]
+
+    def ens(c):
+        S, st = c.S, c.st
+        if c.raised:
+            return []
+        terms, deps = st.env.get("terms"), st.env.get("declared_term_dependencies")
+        if not isinstance(terms, VDict) or not isinstance(deps, VDict):
+            return [("region-defines-terms-and-declared_term_dependencies", z3.BoolVal(False))]
+        k = z3.Const("ta_k2", S.Atom)
+        return [("every-computed-column: term = sql(expression) + window clause, declared dependencies = columns read + ALL partition and order columns",
+                 z3.ForAll([k], z3.Implies(c.subops.dom[k], spec_for(c, st, k, terms, deps))))]
+
+    reg.add(Contract(key="SQLModel.extend_to_near_sql:term-assembly", file="data_algebra/sql_model.py", qualname="SQLModel.extend_to_near_sql", cls="SQLModel",
+                     params={"self": SM, "extend_node": T.obj("ExtendNode"), "using": T.obj("OrderedSet"), "temp_id_source": Ty_py_none(), "sql_format_options": Ty_py_none()},
+                     ghost_params={"subops": T.odict(T.atom, EXPR), "window_term": T.atom, "window_vars": T.set(T.atom)},
+                     ensures=ens, body_select=region, names=("extend_to_near_sql:term-assembly",), loops={1: loop0, 2: loop1},  # ordinals count every for/while of the whole function
+                     local_types={"terms": T.odict(T.atom, T.oatom), "declared_term_dependencies": T.odict(T.atom, T.set(T.atom)), "cols_used_in_term": T.set(T.atom)},
+                     entry_assume=lambda c: [c.eng.as_atom(c.window_term, c.st, None) != c.S.NONE]))
 
 
 # ====================================================================== C08/C01: SQLModel.select_rows_to_near_sql (selected terms and WHERE text)
